@@ -13,6 +13,8 @@
 #include <terminalpp/detail/parser.hpp>
 
 #include <algorithm>
+#include <csignal>
+#include <signal.h>
 #include <cstdio>
 #include <cstdlib>
 #include <deque>
@@ -888,6 +890,14 @@ int main(int argc, char **argv)
                     std::cout.write(reinterpret_cast<char const *>(b.data()), static_cast<std::streamsize>(b.size()));
                 }
                 else if (cmd == "exit") std::exit(0);
+                else if (cmd == "sigwinch")
+                {
+                    // the host program handles window-size signals (no SA_RESTART):
+                    // a write blocked on a slow reader is interrupted by them
+                    struct sigaction sa {};
+                    sa.sa_handler = [](int) {};
+                    sigaction(SIGWINCH, &sa, nullptr);
+                }
                 continue;
             }
             auto const b = unhex(line);
